@@ -122,13 +122,22 @@ def _canonical(raw):
 def run_case(run, drv, case_seed, max_len):
     rng = random.Random(case_seed)
     with sandbox("c07") as box:
-        m = foreign_meta(rng, box) if rng.random() < 0.3 else metas.make_meta(rng, box)
+        if case_seed < 0:
+            # fixed shapes every run includes: a foreign metafile whose info dictionary is NOT in
+            # sorted key order, edited by requests that name only trackers / seeds
+            rng.force_unsorted = True
+            m = foreign_meta(rng, box)
+        else:
+            m = foreign_meta(rng, box) if rng.random() < 0.3 else metas.make_meta(rng, box)
         case = {"case_seed": case_seed, "version": m["version"], "opts": m["opts"],
                 "creator": m["creator"], "requests": []}
         nreq = rng.randrange(1, max_len + 1)
         shapes = []
         for step in range(nreq):
             req = gen_request(rng)
+            if case_seed < 0 and step == 0:
+                req = {"announce": ["http://new.tracker/a"], "url-list": None, "httpseeds": ["http://h/1"],
+                       "comment": None, "source": None, "private": None}
             via_cli = rng.random() < 0.4
             raw0 = open(m["path"], "rb").read()
             before = refspec.lenient_decode(raw0)
@@ -238,7 +247,7 @@ def foreign_meta(rng, box):
                                 trailing_pad=True, with_length=True, extra=extra,
                                 info_extra=info_extra)
     raw = refspec.encode(meta)
-    if rng.random() < 0.4:
+    if rng.random() < 0.4 or getattr(rng, "force_unsorted", False):
         # written by a tool that does not sort: the info dictionary keeps its own key order, and
         # an edit that names no info field must leave those bytes (hence the info-hash) alone
         items = list(meta["info"].items())
@@ -268,7 +277,7 @@ def run(tier, seed, replay=None):
     run = Run("C07", tier, seed, RULE)
     drv = Driver()
     seeds = [replay["case"]["case_seed"]] if replay else \
-        [run.rng.randrange(10 ** 9) for _ in range(100 if tier == "quick" else 800)]
+        [-1, -2, -3] + [run.rng.randrange(10 ** 9) for _ in range(100 if tier == "quick" else 800)]
     for s in seeds:
         run_case(run, drv, s, 8 if tier == "quick" else 20)
     for (case, step, raw1), req, out in drv.run():
